@@ -472,7 +472,8 @@ class Root(Composite):
         kind = self.offer(kind, n, m, batch, depth)
         s = _base(self.name, kind, n, m, batch, dtype, rng)
         if kind == "pd":
-            s["children"] = [_gen(rng, rng.choice(["tril", "pd"]), n, n, batch, min(depth, 1), dtype)]
+            # a well-conditioned square factor (a PD child would square its condition number)
+            s["children"] = [_gen(rng, "tril", n, n, batch, min(depth, 1), dtype)]
         else:
             r = rng.choice([1, 2, n, n + 1])
             s["children"] = [_gen(rng, "rect", n, r, batch, max(depth - 1, 0), dtype)]
